@@ -85,8 +85,13 @@ Holds(r, out) ==
          \* that day): reference and candidate are on one clock, the reference's own calendar day is the candidate's day
          [] r.form = "timeaw"   -> out = TimeOnly(r.base, r.t, r.pref, 0)
          [] r.form = "timez"    -> out = ShiftSeconds(TimeOnly(r.base, r.t, r.pref, r.soff), r.off - r.soff)
-         [] r.form = "month"    -> MonthOK(r.base, r.m, r.pref, out)
-         [] r.form = "daymonth" -> DayMonthOK(r.base, r.m, r.d, r.pref, out)
+         \* (a timezone-aware reference r.boff seconds east: its OWN calendar fields fill what the string leaves open, and
+         \* "not after / not before the reference" is about instants - the result is a wall clock of TIMEZONE, UTC in these
+         \* cases, so the reference is compared as its UTC wall clock; r.boff = 0 for naive references)
+         [] r.form = "month"    -> /\ MonthOK(ShiftSeconds(r.base, 0 - r.boff), r.m, r.pref, out)
+                                   /\ (r.pref = "current_period" => out[1] = r.base[1])
+         [] r.form = "daymonth" -> /\ DayMonthOK(ShiftSeconds(r.base, 0 - r.boff), r.m, r.d, r.pref, out)
+                                   /\ (r.pref = "current_period" /\ ~(r.m = 2 /\ r.d = 29 /\ ~IsLeap(r.base[1])) => out[1] = r.base[1])
          [] r.form = "yy"       -> TwoDigitOK(r.base, r.m, r.d, r.yy, r.pref, out)
 
 \* ---- known finding C09-month-override: the month preference is applied after the weekday / time
